@@ -31,6 +31,7 @@ type FileState struct {
 	Full     *world.Rendered // the complete rendering (edit histories are prefixes of it)
 	Text     []byte
 	File     *hcl.File
+	ParseOK  bool // the parser reported no error for the current text
 	Version  int
 }
 
@@ -174,6 +175,10 @@ func (s *Store) runHook(ctx context.Context, h world.HookSpec, value cty.Value) 
 		n = 3
 	}
 	switch mode {
+	case "racy":
+		// self-test of the race oracle only: a deliberately unsynchronised write
+		racyCell++
+		return mk(1), nil
 	case "error":
 		return nil, fmt.Errorf("hook %s: registry unreachable", h.Name)
 	case "partial":
@@ -190,19 +195,22 @@ func (s *Store) runHook(ctx context.Context, h world.HookSpec, value cty.Value) 
 	return mk(n), nil
 }
 
-func parse(name string, text []byte) *hcl.File {
+var racyCell int
+
+func parse(name string, text []byte) (*hcl.File, bool) {
 	var f *hcl.File
+	var diags hcl.Diagnostics
 	if strings.HasSuffix(name, ".json") {
-		f, _ = json.Parse(text, name)
+		f, diags = json.Parse(text, name)
 	} else {
-		f, _ = hclsyntax.ParseConfig(text, name, hcl.InitialPos)
+		f, diags = hclsyntax.ParseConfig(text, name, hcl.InitialPos)
 	}
-	return f
+	return f, !diags.HasErrors()
 }
 
 func (f *FileState) setText(t []byte) {
 	f.Text = append([]byte(nil), t...)
-	f.File = parse(f.Name, f.Text)
+	f.File, f.ParseOK = parse(f.Name, f.Text)
 	f.Version++
 	if f.Full != nil && string(f.Full.Text) == string(t) {
 		f.Rendered = f.Full
